@@ -264,7 +264,10 @@ pub fn sweep_trees(c: &Ctx, den: u64, unprivileged: bool) {
                     continue;
                 }
                 let f = |p: &str| if p == "/" { "@".to_string() } else { format!("@{}", p) };
-                calls.extend(two_path_ops(&f(a), &f(b), false));
+                // builder forms too; following copies only where the source is a link to a file or has no link inside
+                // (placement below the destination when links inside the source are followed is undocumented)
+                let links_inside = tree.subtree(a).iter().any(|k| k != a && tree.kind(k) == Some(Kind::Link)) || matches!(tree.nodes.get(a), Some(Node::Link { to_dir: true, .. }));
+                calls.extend(two_path_ops(&f(a), &f(b), true).into_iter().filter(|o| !matches!(o, Op::CopyB(_, _, CopyOpt { follow: true, .. }) if links_inside)));
             }
         }
         let mut fps = vec![];
